@@ -41,6 +41,7 @@ type propConf struct {
 }
 
 var props = map[string]propConf{
+	"C02": {Engine: "E1+E2", QuickBudget: 15, ThorBudget: 600},
 	"C08": {Engine: "E1", QuickBudget: 12, ThorBudget: 600},
 	"C09": {Engine: "E2", QuickBudget: 15, ThorBudget: 600},
 }
@@ -58,6 +59,7 @@ type summary struct {
 	Samples     []json.RawMessage `json:"samples"`
 	Violations  []violationRec    `json:"violations"`
 	Witness     map[string]string `json:"witness"`
+	KnownSeen   map[string]int    `json:"known_seen"`
 	Infra       string            `json:"infra"`
 	WallS       float64           `json:"wall_s"`
 	Desc        description       `json:"desc"`
@@ -289,6 +291,12 @@ func cmdCheck(args []string) int {
 	fmt.Printf("vsim: instrumented tree %s (%v), build %.1fs\n", b.tree, b.sites, time.Since(start).Seconds())
 	replayDir := filepath.Join(verifDir, "replays")
 	_ = os.MkdirAll(replayDir, 0o755)
+	var openKeys []string
+	for _, k := range loadKnown() {
+		if k.Property == id && k.Status == "open" {
+			openKeys = append(openKeys, k.Key)
+		}
+	}
 	var wg sync.WaitGroup
 	sums := make([]*summary, *workers)
 	errs := make([]string, *workers)
@@ -299,7 +307,7 @@ func cmdCheck(args []string) int {
 			out := filepath.Join(b.scratch, fmt.Sprintf("sum-%d.json", w))
 			cmd := workerCmd(b, pc, "-prop", id, "-tier", *tier, "-seed", fmt.Sprint(seed), "-worker", fmt.Sprint(w),
 				"-workers", fmt.Sprint(*workers), "-runs", fmt.Sprint(*runs), "-budget", fmt.Sprint(*budget),
-				"-out", out, "-replaydir", replayDir, "-tree", b.tree)
+				"-out", out, "-replaydir", replayDir, "-tree", b.tree, "-known", strings.Join(openKeys, ","))
 			if pc.Race {
 				cmd.Env = append(cmd.Env, "GORACE=halt_on_error=0 log_path="+filepath.Join(b.scratch, fmt.Sprintf("race-%d", w)))
 			}
@@ -355,6 +363,7 @@ func report(id, tier string, seed uint64, pc propConf, sums []*summary, b *built
 	agg := &summary{Probes: map[string]int{}, Faults: map[string]int{}, Witness: map[string]string{}}
 	nontriv := map[uint64]struct{}{}
 	scheds := map[uint64]struct{}{}
+	knownSeenW := map[string]int{}
 	for _, s := range sums {
 		if s == nil {
 			continue
@@ -376,6 +385,9 @@ func report(id, tier string, seed uint64, pc propConf, sums []*summary, b *built
 		for k, v := range s.Witness {
 			agg.Witness[k] = v
 		}
+		for k, v := range s.KnownSeen {
+			knownSeenW[k] += v
+		}
 		agg.SimMs += s.SimMs
 		agg.Steps += s.Steps
 		agg.Ambiguous += s.Ambiguous
@@ -392,6 +404,11 @@ func report(id, tier string, seed uint64, pc propConf, sums []*summary, b *built
 		}
 	}
 	knownSeen := map[string]int{}
+	for k, v := range knownSeenW {
+		if _, ok := open[k]; ok {
+			knownSeen[k] += v
+		}
+	}
 	var real []violationRec
 	for _, v := range agg.Violations {
 		if _, ok := open[v.Key]; ok && v.Key != "" {
